@@ -109,6 +109,22 @@ def build_script(rng, i, quick):
     sweeps.append((len(ops) - 1, "group_info", "observer", gi, "trunc"))
     ops.append({"op": "sweep", "who": snd, "msg": gi + ".tree", "gi": gi, "target": "observe_tree", "kind": "bits", "stride": stride * 4 + 1, "tree": gi + ".tree"})
     sweeps.append((len(ops) - 1, "tree", "observer", gi + ".tree", "bits"))
+    # ---- messages made in this epoch but first seen in the NEXT one: an encrypted proposal that
+    # nobody has processed yet and a NewMemberProposal (no membership tag, signature without context)
+    late = []
+    pe = g.fresh("p")
+    ops.append({"op": "opts", "who": others[-1], "encrypt_controls": True})
+    ops.append({"op": "propose", "who": others[-1], "kind": "gce", "id": pe, "ext_data": "0c0d"})
+    late.append(pe)
+    ops.append({"op": "opts", "who": others[-1], "encrypt_controls": False})
+    outs = [o for o in g.outsiders() if o != joiner]
+    if outs:
+        gi2 = g.fresh("gi")
+        ops.append({"op": "group_info", "who": snd, "id": gi2, "ext_commit": False, "tree_ext": True})
+        xa = g.fresh("p")
+        ops.append({"op": "ext_add", "who": outs[0], "gi": gi2, "id": xa})
+        ops.append({"op": "deliver", "to": rcv[0], "msg": xa})      # genuine in ITS epoch
+        late.append(xa)
     # ---- insider: the public commit with a flipped confirmation tag and a fresh membership tag
     insider = []
     pub = cm[0]
@@ -135,6 +151,10 @@ def build_script(rng, i, quick):
         r = rng.choice([m for m in (rcv if mid == aid else members) if m != pub[1]] or rcv)
         ops.append({"op": "deliver", "to": r, "msg": mid, "snap_before": True, "observe": r})
         replays.append((len(ops) - 1, mid, r))
+    for mid in late:
+        for r in [m for m in members if m not in (pub[1], others[-1], rcv[0])][:2]:
+            ops.append({"op": "deliver", "to": r, "msg": mid, "snap_before": True, "observe": r})
+            replays.append((len(ops) - 1, mid, r))
     # ---- insider commits built with the presets
     for preset in ("short_path", "long_path", "foreign_path_key", "bad_parent_hash"):
         ins = rng.choice(members)
